@@ -9,6 +9,42 @@ use std::sync::mpsc::{channel, Receiver, Sender};
 use std::sync::{Arc, Mutex};
 use std::time::{Duration, Instant};
 
+// ---- scheduling point inside Worker::run (cfg(cadence_verif) hook in /repo): the worker thread stops right before
+// it blocks in recv() until the driver hands it a permit. Only threads that first arrive during the current scenario
+// are gated, so stragglers of earlier scenarios in this process pass straight through.
+static GATING: AtomicBool = AtomicBool::new(false);
+static GENERATION: AtomicUsize = AtomicUsize::new(0);
+static ARRIVED: AtomicUsize = AtomicUsize::new(0);
+static PERMITS: AtomicUsize = AtomicUsize::new(0);
+thread_local! {
+    static MY_GEN: std::cell::Cell<usize> = std::cell::Cell::new(usize::MAX);
+}
+
+fn sched_point(name: &'static str) {
+    if name != "queuing.worker.before_recv" {
+        return;
+    }
+    let gen = GENERATION.load(Ordering::SeqCst);
+    let mine = MY_GEN.with(|g| {
+        if g.get() == usize::MAX {
+            g.set(gen);
+        }
+        g.get()
+    });
+    if mine != gen || !GATING.load(Ordering::SeqCst) {
+        return;
+    }
+    ARRIVED.fetch_add(1, Ordering::SeqCst);
+    let t = Instant::now();
+    while GATING.load(Ordering::SeqCst) && GENERATION.load(Ordering::SeqCst) == gen && t.elapsed() < Duration::from_secs(30) {
+        let p = PERMITS.load(Ordering::SeqCst);
+        if p > 0 && PERMITS.compare_exchange(p, p - 1, Ordering::SeqCst, Ordering::SeqCst).is_ok() {
+            return;
+        }
+        std::thread::sleep(Duration::from_millis(1));
+    }
+}
+
 struct Shared {
     entered: Mutex<Vec<String>>,
     finished: AtomicUsize,
@@ -221,6 +257,15 @@ pub fn replay(sc: &Value) -> Value {
             b = b.with_error_handler(move |e: io::Error| h.lock().unwrap().push(e.to_string()));
         }
     }
+    // capacity 0 (rendezvous): whether a try_send succeeds depends on the worker being parked in recv(), so the
+    // worker is held right before every recv() and parks only where the solver's schedule parks it
+    let rendezvous = sc["capacity"].as_u64() == Some(0);
+    GENERATION.fetch_add(1, Ordering::SeqCst);
+    ARRIVED.store(0, Ordering::SeqCst);
+    PERMITS.store(0, Ordering::SeqCst);
+    GATING.store(rendezvous, Ordering::SeqCst);
+    cadence::verif::set_hook(Some(sched_point));
+    let mut parks = 0usize;
     let mut handles: Vec<QueuingMetricSink> = vec![b.build(sink)];
     let mut accepted: Vec<String> = vec![];
     let mut results: Vec<String> = vec![];
@@ -245,8 +290,8 @@ pub fn replay(sc: &Value) -> Value {
                 let max_occ = accepted.len().saturating_sub(taken_seen);
                 let min_occ = accepted.len().saturating_sub(max_taken.max(taken_seen));
                 let cap = sc["capacity"].as_u64().map(|c| c as usize);
-                let must_accept = cap.map(|c| max_occ < c).unwrap_or(true);
-                let must_refuse = cap.map(|c| min_occ >= c).unwrap_or(false);
+                let must_accept = cap.map(|c| max_occ < c).unwrap_or(true) && !rendezvous;
+                let must_refuse = cap.map(|c| min_occ >= c).unwrap_or(false) && !rendezvous;
                 let t = Instant::now();
                 let r = handles[0].emit(&m);
                 if ((r.is_ok() && must_refuse) || (r.is_err() && must_accept)) && !marker_pending {
@@ -279,6 +324,15 @@ pub fn replay(sc: &Value) -> Value {
                     viol.push(json!({"prop": "C09", "clause": "drop-never-blocks", "detail": format!("dropping a handle took {:?}", t.elapsed())}));
                 }
             }
+            "park" => {
+                // the worker registers as a parked receiver now: wait until it stands at the scheduling point, let it
+                // through once and give it time to block in recv()
+                parks += 1;
+                let _ = wait_until(|| ARRIVED.load(Ordering::SeqCst) >= parks, 3000);
+                PERMITS.fetch_add(1, Ordering::SeqCst);
+                let _ = wait_until(|| PERMITS.load(Ordering::SeqCst) == 0, 3000);
+                std::thread::sleep(Duration::from_millis(40));
+            }
             "wait_enter" => {
                 let want = sh.finished.load(Ordering::SeqCst) + 1;
                 let _ = wait_until(|| sh.entered.lock().unwrap().len() >= want, 1500);
@@ -294,6 +348,11 @@ pub fn replay(sc: &Value) -> Value {
             }
             _ => {}
         }
+    }
+    // the scripted part is over: from here on the worker runs freely
+    GATING.store(false, Ordering::SeqCst);
+    if rendezvous {
+        std::thread::sleep(Duration::from_millis(60));
     }
     // liveness probe: a live handle must still get a metric through (a dead worker is otherwise unobservable)
     if let Some(h) = handles.first() {
